@@ -614,3 +614,94 @@ def run_rand(ctx, case, J):
     feats = [("only ranks_tucker given", case["rmode"] == "tucker-only"), ("CP and TT cores mixed", case["rmode"] == "mixed"),
              ("all cores CP", case["rmode"] == "cp"), ("1 mode", N == 1)]
     J.check(sub, "%s(%s, %s)" % (sub, shape, ", ".join("%s=%s" % kv for kv in kw.items())), thunk, verify, feats)
+
+
+# =============================================================================== correspondence with the Lean model (main session)
+def _corr_cases(rng, tier):
+    n = {"quick": 200, "thorough": 3000, "search": 0}[tier]
+    out = []
+    for _ in range(n):
+        N = rng.choice([1, 2, 2, 3, 3, 4])
+        stream = "int" if rng.random() < 0.7 else "float"
+        shape = [1 if rng.random() < 0.15 else rng.randint(2, 4) for _ in range(N)]
+        op = rng.choice(["flip", "cumsum", "pad0", "ttm", "ttm"])
+        c = {"kind": "corr", "op": op, "t": gen_tensor(rng, shape, stream=stream).to_json(), "stream": stream, "dd": "float64"}
+        bits = [rng.randint(0, 1) for _ in range(N)]
+        if not any(bits):
+            bits[rng.randrange(N)] = 1
+        c["bits"] = bits
+        if op == "pad0":
+            c["sizes"] = [shape[i] + rng.randint(0, 2) if bits[i] else -1 for i in range(N)]
+        if op == "ttm":
+            mats = []
+            for i in range(N):
+                if bits[i]:
+                    r = rng.randint(1, 3)
+                    mats.append([[float(rng.randint(-2, 2)) if stream == "int" else rng.gauss(0, 1) for _ in range(shape[i])] for _ in range(r)])
+                else:
+                    mats.append(None)
+            c["mats"] = mats
+        out.append(c)
+    return out
+
+
+_orig_cases = cases
+
+
+def cases(rng, tier):  # noqa: F811
+    return _orig_cases(rng, tier) + _corr_cases(rng, tier)
+
+
+def run_corr(ctx, case, J):
+    from core import parse_tensor, cmp_struct, from_tn, q, safe, close
+    t = PT.from_json(case["t"])
+    op = case["op"]
+    exact = case["stream"] == "int"
+    bits = case["bits"]
+    dims = [i for i, b in enumerate(bits) if b]
+    ctx.case(("corr", op, t.sig(), tuple(bits)), t.nontrivial(), {"op": "model correspondence: " + op, "t": t.describe(), "dims": dims})
+    ctx.count("corr:" + op)
+    if not (getattr(ctx, "use_model", False) and not getattr(ctx, "search_only", False)):
+        return
+    x = t.dense()
+    tt = t.to_tn()
+    hdr = "%d %s" % (len(bits), " ".join(map(str, bits)))
+    if op == "flip":
+        r = safe(lambda: tn.flip(tt, dims)); exp = np.flip(x, axis=tuple(dims)); line = "flip %s %s" % (hdr, t.ser())
+    elif op == "cumsum":
+        r = safe(lambda: tn.cumsum(tt, dims)); exp = x
+        for d in dims:
+            exp = np.cumsum(exp, axis=d)
+        line = "cumsum %s %s" % (hdr, t.ser())
+    elif op == "pad0":
+        sizes = case["sizes"]
+        r = safe(lambda: tn.pad(tt, [sizes[d] for d in dims], dim=dims))
+        exp = np.zeros([sizes[i] if bits[i] else x.shape[i] for i in range(t.N)]); exp[tuple(slice(0, s) for s in x.shape)] = x
+        line = "pad0 %d %s %s" % (len(sizes), " ".join(map(str, sizes)), t.ser())
+    else:
+        mats = case["mats"]
+        Us = [torch.tensor(np.array(mats[d], dtype=np.float64)) for d in dims]
+        r = safe(lambda: tn.ttm(tt, Us, dim=dims))
+        exp = x
+        for d in dims:
+            exp = np.moveaxis(np.tensordot(np.array(mats[d]), exp, axes=(1, d)), 0, d)
+        parts = []
+        for i in range(t.N):
+            if mats[i] is None:
+                parts.append("-")
+            else:
+                M = np.array(mats[i], dtype=np.float64)
+                parts.append("M %d %d %s" % (M.shape[0], M.shape[1], " ".join(q(v) for v in M.reshape(-1))))
+        line = "ttm %d %s %s" % (t.N, " ".join(parts), t.ser())
+    if r[0] == "err":
+        ctx.oracle("%s(dims=%s) raised %s: %s" % (op, dims, r[1], r[2]), case); return
+    toks = ctx.drv().call(line)
+    if toks[0] != "ok":
+        ctx.corr("model %s failed: %s" % (op, " ".join(toks[:4])), case); return
+    m = parse_tensor(toks, 1)[0]
+    d = cmp_struct(from_tn(r[1]), m, exact)
+    if d is not None:
+        ctx.corr("%s(dims=%s): implementation cores differ from model cores: %s" % (op, dims, d), case)
+    md = PT([np.asarray(c, dtype=np.float64) for c in m.cores], [None if U is None else np.asarray(U, dtype=np.float64) for U in m.Us]).dense()
+    if md.shape != exp.shape or not close(md, exp, 1e-9)[0]:
+        ctx.spec("model %s differs from the NumPy result" % op, case)
